@@ -9,6 +9,11 @@ Proved kernels (generators, with obligations AT every yield):
        * groups are consumed in stream order, each exactly once (Q(j) = number consumed before contig j);
        * normal completion implies EVERY group was yielded (Q(nG) = number of groups): order incompatibilities, unknown
          names and left-over groups can only end in GenomeError, never in completion.
+  K4 SynchedStream.__iter__ (default value set): the k-th yield is the table of contig k (the next unconsumed group iff its name is
+     order(k), else the default); completion implies every group was yielded at its own contig; the subscript
+     `self._contig_order[cur_contig_idx]` is in range.
+  K3 streams.left_join.left_join: one triple per left group, in order; the right datum is the next unconsumed right group iff the names
+     agree; completion implies every right group was joined (left-overs end in AssertionError / Exception).
 """
 import types
 import z3
@@ -21,7 +26,7 @@ ASSUMPTIONS = ["groupby(data, field) yields (name, group) pairs with pairwise di
                "chromosome_order() lists every included genome contig once (false on the current tree for included names containing '_': known finding)",
                "dataclass.empty() is the empty table"]
 NOT_PROVED = ["the clause 'no error is needed from a consumer that stops pulling after the last contig' (checks sit after the yield): known findings, bounded",
-              "SynchedStream / MultiStream, left_join, the similarity measures' use of them, groupby fast path: bounded (rtc/enum_c12.py)"]
+              "MultiStream (zip of SynchedStreams), the similarity measures' use of them, groupby fast path: bounded (rtc/enum_c12.py)"]
 
 
 class St(types.SimpleNamespace):
@@ -216,4 +221,239 @@ iter_chromosomes = Contract("C12.GenomeContext.iter_chromosomes", target=lambda:
                                       ("empty table for a contig that has data", "if name == next_name:", "if name == next_name and len(seen) > 0:")])
 iter_chromosomes.callees = _callees_k2(_h)
 
-CONTRACTS = [included_groups, iter_chromosomes]
+
+
+# ---- K3: left_join ------------------------------------------------------------------------------------------------------------------
+# left_join(grouped_left, grouped_right): for every left group j (name order(j), data dataL(j)) exactly one triple is yielded, in order;
+# its third component is the NEXT unconsumed right group iff that group carries the same name, else None; right groups are consumed in
+# stream order, each at most once (Q(j) = number consumed before left group j); normal completion implies that EVERY right group was
+# joined to the left group of its own name (left-over right groups end in AssertionError / Exception, never in completion).
+def _setup_k3(ctx):
+    st = St()
+    st.nG, st.nR = z3.Int("n_left"), z3.Int("n_right")
+    st.order, st.dataL = z3.Function("name_left", z3.IntSort(), z3.IntSort()), z3.Function("data_left", z3.IntSort(), z3.IntSort())
+    st.nameR, st.grpR = z3.Function("name_right", z3.IntSort(), z3.IntSort()), z3.Function("data_right", z3.IntSort(), z3.IntSort())
+    st.Q = z3.Function("joined_before", z3.IntSort(), z3.IntSort())
+    st.it = SymIter(st.nR, lambda ip, p: (st.nameR(I(p)), st.grpR(I(p))))
+    st.args = [SymList(st.nG, lambda j: (st.order(I(j)), st.dataL(I(j)))), st.it]
+    st.yields = 0
+    ctx.ip.loop_specs[("left_join", 0)] = LoopSpec(_inv_k3(st), _havoc_k3(st))
+    return st
+
+
+def _req_k3(ctx, st):
+    match = lambda j: And(st.Q(j) < st.nR, st.order(j) == st.nameR(st.Q(j)))
+    ctx.assume(st.nG >= 0, st.nR >= 0, st.Q(0) == 0,
+               Forall(lambda j: Implies(in_range(j, st.nG), st.Q(j + 1) == st.Q(j) + Ite(match(j), 1, 0)), triggers=[st.Q], name="Q: right groups joined before left group j (definition)"))
+    ctx.induct("C12.left_join:lemma.Q.bounds", lambda j: And(st.Q(j) >= 0, st.Q(j) <= st.nR), st.Q, lo=0, hi=st.nG)
+    return []
+
+
+def _inv_k3(st):
+    def inv(ip, env):
+        j = env.vars["_it"]
+        q = st.Q(I(j))
+        nn, ng = env.vars["name_right"], env.vars["data_right"]
+        pending_ok = (And(q < st.nR, nn == st.nameR(q), ng == st.grpR(q)) if nn is not None else (q == st.nR if ng is None else z3.BoolVal(False)))
+        return [("one.triple.per.left.group.so.far", I(st.yields) == I(j)),
+                ("pending.right.group.is.the.next.unconsumed.one", pending_ok),
+                ("iterator.position", I(st.it.pos) == Ite(q < st.nR, q + 1, st.nR))]
+    return inv
+
+
+def _havoc_k3(st):
+    def havoc(ip, env):
+        c = ip.ctx
+        j = env.vars["_it"]
+        q = st.Q(I(j))
+        if c.branch(q < st.nR):
+            env.vars["name_right"], env.vars["data_right"] = st.nameR(q), st.grpR(q)
+            st.it.pos = q + 1
+        else:
+            env.vars["name_right"], env.vars["data_right"] = None, None
+            st.it.pos = st.nR
+        st.yields = j
+    return havoc
+
+
+def _yield_k3(ip, st, v, node, env):
+    c = ip.ctx
+    j = env.vars["_it"]
+    q = st.Q(I(j))
+    matched = And(q < st.nR, st.order(I(j)) == st.nameR(q))
+    name, left, right = v
+    c.oblige("%s:yield.j.carries.left.group.j" % c.fname, And(I(name) == st.order(I(j)), I(left) == st.dataL(I(j))), "at_yield")
+    if right is None:
+        c.oblige("%s:yield.j.has.no.right.data.only.when.the.next.right.group.has.another.name" % c.fname, Not(matched), "at_yield")
+    else:
+        c.oblige("%s:yield.j.right.data.is.the.next.right.group.and.has.the.same.name" % c.fname, And(matched, I(right) == st.grpR(q)), "at_yield")
+    c.oblige("%s:exactly.one.yield.per.left.group" % c.fname, I(st.yields) == I(j), "at_yield")
+    st.yields = conc(I(st.yields) + 1)
+
+
+def _ens_k3(ctx, st, ret):
+    return [("completion.implies.every.right.group.was.joined", st.Q(st.nG) == st.nR),
+            ("every.left.group.received.a.triple", I(st.yields) == st.nG)]
+
+
+def _hints_k3(ctx, st, ks):
+    out = [st.Q(st.nG), st.nameR(st.Q(st.nG))]
+    for k in ks[:1]:
+        out += [st.Q(k), st.Q(k + 1)]
+    return out
+
+
+def _left_join():
+    from bionumpy.streams.left_join import left_join
+    return left_join
+
+
+left_join_c = Contract("C12.left_join", target=_left_join, setup=_setup_k3, requires=_req_k3, ensures=_ens_k3,
+                       generator=GeneratorSpec(_yield_k3), hints=_hints_k3,
+                       raises={"AssertionError": lambda ctx, st: [("only.when.a.right.group.is.left.over", st.Q(st.nG) < st.nR)],
+                               "Exception": lambda ctx, st: [("only.when.a.right.group.is.left.over", st.Q(st.nG) < st.nR)]},
+                       dropped=["print(next_group)", "exception message"],
+                       canaries=[("right data attached to a left group of another name", "if name_left != name_right:", "if name_right is None:"),
+                                 ("left-over check removed", "assert name_right is None and data_right is None", "pass"),
+                                 ("right iterator not advanced after a join", "        name_right, data_right = next(grouped_right, (None, None))", "        pass")])
+
+
+
+# ---- K4: SynchedStream.__iter__ -------------------------------------------------------------------------------------------------------
+# For a contig order order(0..nG) of distinct names and ANY stream of groups (names may repeat, be unknown or out of order):
+#   * the k-th yield is the table for contig k: the data of the next unconsumed group iff it carries the name order(k), else the default;
+#   * groups are consumed in stream order (Q(k) = number consumed before contig k);
+#   * completion implies nG yields and Q(nG) = number of groups: every group reached the contig of its own name; repeated, unknown or
+#     out-of-order names can only end in StreamError;
+#   * `self._contig_order[cur_contig_idx]` is never out of range (safety obligation generated from the subscript).
+def _SS():
+    from bionumpy.streams.multistream import SynchedStream
+    return SynchedStream
+
+
+class _Ident:
+    def sym_call(self, ip, args, kwargs, lineno):
+        return args[0]
+
+
+def _setup_k4(ctx):
+    st = St()
+    st.nG, st.nR = z3.Int("n_contigs"), z3.Int("n_groups")
+    st.order = z3.Function("order", z3.IntSort(), z3.IntSort())
+    st.nameR, st.grpR = z3.Function("nameR", z3.IntSort(), z3.IntSort()), z3.Function("groupR", z3.IntSort(), z3.IntSort())
+    st.Q = z3.Function("consumed_before", z3.IntSort(), z3.IntSort())
+    st.it = SymIter(st.nR, lambda ip, p: (st.nameR(I(p)), st.grpR(I(p))))
+    st.selfv = SRec(_SS(), _stream=Opaque("stream"), _contig_order=SymList(st.nG, lambda k: st.order(I(k))), _grouping_attribute=Opaque("chromosome"),
+                    _has_default=True, _default_value=EMPTY, _key_func=_Ident())
+    st.args = []
+    st.yields = 0
+    _h4["st"] = st
+    ctx.ip.loop_specs[("SynchedStream.__iter__", 0)] = LoopSpec(_inv_k4_outer(st), _havoc_k4_outer(st))
+    ctx.ip.loop_specs[("SynchedStream.__iter__", 1)] = LoopSpec(_inv_k4_inner(st), _havoc_k4_inner(st))
+    ctx.ip.loop_specs[("SynchedStream.__iter__", 2)] = LoopSpec(_inv_k4_tail(st), _havoc_k4_tail(st))
+    return st
+
+
+_h4 = {}
+
+
+def _req_k4(ctx, st):
+    match = lambda j: And(st.Q(j) < st.nR, st.order(j) == st.nameR(st.Q(j)))
+    ctx.assume(st.nG >= 0, st.nR >= 0, st.Q(0) == 0,
+               Forall(lambda j: Implies(in_range(j, st.nG), st.Q(j + 1) == st.Q(j) + Ite(match(j), 1, 0)), triggers=[st.Q], name="Q: groups consumed before contig j (definition)"))
+    return [PairForall(st.order, lambda a, b: Implies(And(in_range(a, st.nG), in_range(b, st.nG), a != b), st.order(a) != st.order(b)), name="contig names distinct")]
+
+
+def _seen_ok(seen, c):
+    if isinstance(seen, SymList):
+        return [("seen.is.the.contigs.done", I(seen.count) == I(c)),
+                ("seen.content", Forall(lambda k: Implies(in_range(k, c), seen.at(k) == _h4["st"].order(k))))]
+    return [("seen.is.the.contigs.done", z3.BoolVal(len(seen) == 0 and conc(I(c) == 0) is True))]
+
+
+def _inv_k4_outer(st):
+    def inv(ip, env):
+        p, c = env.vars["_it"], env.vars["cur_contig_idx"]
+        return [("contig.index.in.range", And(I(c) >= 0, I(c) <= st.nG)),
+                ("one.table.per.contig.so.far", I(st.yields) == I(c)),
+                ("groups.consumed.so.far = Q(contigs done)", st.Q(I(c)) == I(p))] + _seen_ok(env.vars["seen_contig_names"], c)
+    return inv
+
+
+def _havoc_k4_outer(st):
+    def havoc(ip, env):
+        c = ip.ctx.fresh_int("cur_contig_idx")
+        env.vars["cur_contig_idx"] = c
+        env.vars["seen_contig_names"] = SymList(c, lambda k: st.order(I(k)))
+        env.vars["used_names"] = SymList(ip.ctx.fresh_int("n_used"), lambda k: 0)
+        st.yields = c
+    return havoc
+
+
+def _inv_k4_inner(st):
+    def inv(ip, env):
+        p, c, name = env.vars["_it"], env.vars["cur_contig_idx"], env.vars["name"]
+        return [("contig.index.in.range", And(I(c) >= 0, I(c) <= st.nG)),
+                ("one.table.per.contig.so.far", I(st.yields) == I(c)),
+                ("the.current.group.is.still.unconsumed", And(st.Q(I(c)) == I(p), I(p) < st.nR, I(name) == st.nameR(I(p)))),
+                ("its.name.is.not.a.contig.already.done", Forall(lambda k: Implies(in_range(k, c), st.order(k) != I(name))))] + _seen_ok(env.vars["seen_contig_names"], c)
+    return inv
+
+
+def _havoc_k4_inner(st):
+    def havoc(ip, env):
+        c = ip.ctx.fresh_int("cur_contig_idx")
+        env.vars["cur_contig_idx"] = c
+        env.vars["seen_contig_names"] = SymList(c, lambda k: st.order(I(k)))
+        st.yields = c
+    return havoc
+
+
+def _inv_k4_tail(st):
+    def inv(ip, env):
+        t, c = env.vars["_it"], env.vars["cur_contig_idx"]
+        return [("one.table.per.contig.so.far", I(st.yields) == I(c) + I(t)),
+                ("no.group.is.left", st.Q(I(c) + I(t)) == st.nR)]
+    return inv
+
+
+def _havoc_k4_tail(st):
+    def havoc(ip, env):
+        st.yields = conc(I(env.vars["cur_contig_idx"]) + I(env.vars["_it"]))
+    return havoc
+
+
+def _yield_k4(ip, st, v, node, env):
+    c = ip.ctx
+    k = st.yields
+    q = st.Q(I(k))
+    matched = And(q < st.nR, st.order(I(k)) == st.nameR(q))
+    c.oblige("%s:yield.k.is.for.a.contig.of.the.order" % c.fname, And(I(k) >= 0, I(k) < st.nG), "at_yield")
+    c.oblige("%s:yield.k.is.the.group.named.order(k).or.the.default" % c.fname, I(v) == Ite(matched, st.grpR(q), EMPTY), "at_yield")
+    st.yields = conc(I(k) + 1)
+
+
+def _ens_k4(ctx, st, ret):
+    return [("completion.implies.every.group.was.yielded.at.its.own.contig", st.Q(st.nG) == st.nR),
+            ("every.contig.received.a.table (data or default)", I(st.yields) == st.nG)]
+
+
+def _hints_k4(ctx, st, ks):
+    out = [st.Q(st.nG)]
+    for k in ks[:2]:
+        out += [st.Q(k), st.Q(k + 1), st.order(k)]
+    return out
+
+
+synched = Contract("C12.SynchedStream.__iter__", target=lambda: _SS().__iter__, setup=_setup_k4, requires=_req_k4, ensures=_ens_k4,
+                   generator=GeneratorSpec(_yield_k4), raises={"StreamError": lambda ctx, st: []}, hints=_hints_k4,
+                   callees={"bionumpy.streams.decorators.streamable.__call__.<locals>.new_func": lambda ip, args, kwargs, lineno: _h4["st"].it},
+                   dropped=["logger.debug / logger.info calls", "sys.stdout.flush(), sys.stderr.flush()", "exception messages"],
+                   canaries=[("a skipped contig receives the group's data instead of the default", "                    yield self._default_value\n                    seen_contig_names", "                    yield data\n                    seen_contig_names"),
+                             # (`if name == self._contig_order[cur_contig_idx]` -> `if True` and removing the final `remains` check are EQUIVALENT
+                             #  mutants: the while loop only exits at the group's own contig, and a for loop leaves its iterator exhausted)
+                             ("repeated name accepted", "if name in seen_contig_names:", "if False:"),
+                             ("trailing contigs get no table", "for i in range(cur_contig_idx, len(self._contig_order)):", "for i in range(cur_contig_idx + 1, len(self._contig_order)):"),
+                             ("contig index not advanced after a default", "                    cur_contig_idx += 1", "                    pass")])
+
+CONTRACTS = [included_groups, iter_chromosomes, left_join_c, synched]
